@@ -408,26 +408,49 @@ func runC14(c *Ctx) {
 	c14ResumeAtAskingFilter(c)
 }
 
-// c14Raises: the function stores true into directResponse and a value into downstreamRespHeaders on every path.
+// c14Raises: the function installs a complete reply and raises directResponse on every path - itself, or by
+// unconditionally calling another function of the package that does. "Complete" means all three parts of the stored
+// response are written: headers, data and trailers. A hijack that leaves the data (or trailers) of an earlier answer in
+// place sends the client the new status line followed by the superseded answer's body.
 func c14Raises(c *Ctx, fn *ssa.Function, rule string) {
 	fk := funcKey(fn)
-	var flag, hdr ssa.Instruction
-	forEachInstr(fn, false, func(_ *ssa.Function, in ssa.Instruction) {
-		if st, ok := in.(*ssa.Store); ok {
-			if _, f, _, ok := fieldAddrInfo(st.Addr); ok {
-				if f == "directResponse" {
-					if b, isB := constBool(st.Val); isB && b {
-						flag = in
+	var installs func(f *ssa.Function, d int) map[string]bool
+	installs = func(f *ssa.Function, d int) map[string]bool {
+		got := map[string]bool{}
+		if f == nil || len(f.Blocks) == 0 || d > 2 {
+			return got
+		}
+		forEachInstr(f, false, func(_ *ssa.Function, in ssa.Instruction) {
+			switch x := in.(type) {
+			case *ssa.Store:
+				if _, fld, _, ok := fieldAddrInfo(x.Addr); ok && unconditionalIn(x) {
+					switch fld {
+					case "directResponse":
+						if b, isB := constBool(x.Val); isB && b {
+							got["flag"] = true
+						}
+					case "downstreamRespHeaders":
+						got["headers"] = true
+					case "downstreamRespDataBuf":
+						got["data"] = true
+					case "downstreamRespTrailers":
+						got["trailers"] = true
 					}
 				}
-				if f == "downstreamRespHeaders" {
-					hdr = in
+			case *ssa.Call:
+				if callee := x.Common().StaticCallee(); callee != nil && callee.Pkg == f.Pkg && unconditionalIn(x) {
+					for k := range installs(callee, d+1) {
+						got[k] = true
+					}
 				}
 			}
-		}
-	})
-	c.Check(rule, fk+":raises-flag", fn.Pos(), flag != nil && unconditionalIn(flag), "directResponse = true on every path", "a hijack path does not raise directResponse: the request would be answered AND forwarded upstream")
-	c.Check(rule, fk+":installs-reply", fn.Pos(), hdr != nil && unconditionalIn(hdr), "reply headers installed on every path", "a hijack path does not install the reply headers")
+		})
+		return got
+	}
+	got := installs(fn, 0)
+	c.Check(rule, fk+":raises-flag", fn.Pos(), got["flag"], "directResponse = true on every path", "a hijack path does not raise directResponse: the request would be answered AND forwarded upstream")
+	c.Check(rule, fk+":installs-reply", fn.Pos(), got["headers"], "reply headers installed on every path", "a hijack path does not install the reply headers")
+	c.Check(rule, fk+":replaces-the-whole-response", fn.Pos(), got["data"] && got["trailers"], "data and trailers of the stored response are written on every path", "a hijack path does not overwrite the data or trailers of the stored response on every path: when an earlier answer (a direct response of another filter, an upstream response given up for a retry) left a body there, the client gets the new reply's headers followed by the superseded answer's body")
 }
 
 func c14Chain(c *Ctx) {
@@ -717,7 +740,7 @@ func c14FlagOnlyWithFreshReply(c *Ctx) {
 			c.Check("C14.R2", ord.next(fn, "flag-only-with-fresh-reply"), st.Pos(), fresh, "the reply headers are installed before the flag is raised", "directResponse is raised over whatever response is currently stored: a response that already went through the send filters (an upstream response given up for a retry) is sent through them again, so each send filter runs twice on the response the client receives")
 		}
 	}
-	if n < 3 {
+	if n < 1 {
 		c.Unresolved("C14.R2", fmt.Sprintf("stores of true into downStream.directResponse (found %d)", n))
 	}
 }
